@@ -1,6 +1,7 @@
 package vc
 
 import (
+	"os"
 	"fmt"
 	"go/types"
 	"runtime/debug"
@@ -417,11 +418,24 @@ func (r *FuncResult) SMTTextWith(o *Obligation, extra []*smt.Term, filter bool) 
 	goal := x.b.And(o.Guard, x.b.Not(o.Goal))
 	var hyps []*smt.Term
 	seenH := map[int]bool{}
-	for _, h := range x.hyps[:o.NHyps] {
+	var addHyp func(h *smt.Term, depth int)
+	addHyp = func(h *smt.Term, depth int) {
+		// conjunctions are split so that the relevance filter judges each conjunct on
+		// its own (a requires clause `a && b` must not be dropped as a whole because
+		// `a` is irrelevant to the goal)
+		if os.Getenv("VERIF_NOSPLIT") == "" && depth < 3 && h.Op == "and" && len(h.Args) <= 32 && x.hypTag[h.ID] == ([2]string{}) && !x.keepHyp[h.ID] && !containsQuant(h) {
+			for _, c := range h.Args {
+				addHyp(c, depth+1)
+			}
+			return
+		}
 		if !seenH[h.ID] {
 			seenH[h.ID] = true
 			hyps = append(hyps, h)
 		}
+	}
+	for _, h := range x.hyps[:o.NHyps] {
+		addHyp(h, 0)
 	}
 	if x.rootC != nil && (x.rootC.UseEnsuresAt != nil || x.rootC.UseEnsures != nil) && len(x.hypTag) > 0 {
 		// selection of the callee postconditions that are used: the default set
